@@ -384,7 +384,96 @@ def rule_kmeans(ctx):
                 res.violate("%s : convergence-report-inverted" % key, "`%s` leads to %s: converged / not converged is reported the wrong way round" % (r.e(cond)[:40], "Ok" if then_ok else "NotConverged"), fn_loc(fn, y["ln"]))
         if not done:
             res.undecided("%s : convergence-test" % key, "the test of the centroid shift against the tolerance was not found (fail closed)", fn_loc(fn))
-    return res.finish(3)
+    # the shift and the tolerance are compared in the same space, for every metric: `rdistance` is the squared distance for L2
+    # only (L1 / L-inf: the distance itself, Lp: the p-th power) - its counterpart is `dist_to_rdist(tolerance)`, never a
+    # hand-made square
+    fits = fws + [f for f in fns_of(F, "linfa_clustering", "fit", trait="Fit") if "KMeans" in (f["d"].get("self_adt") or "")]
+    for fn in fits:
+        c = fn["crate"]
+        r = Render(c)
+        key = fn_key(fn)
+        inits = lets(fn)
+        for y in walk(fn["body"]):
+            if y.get("k") != "Binary" or y["op"] not in ("<", "<=", ">", ">="):
+                continue
+            sides = [y["l"], y["r"]]
+            tol = [s_ for s_ in sides if any(z.get("k") == "MethodCall" and z["name"] == "tolerance" for z in walk(s_))]
+            if len(tol) != 1:
+                continue
+            other = peel_refs(sides[1] if tol[0] is sides[0] else sides[0])
+            src = other
+            if other.get("k") == "Path" and other.get("local") in inits:
+                src = inits[other["local"]]["init"]
+            calls = [z["name"] for z in walk(src) if z.get("k") == "MethodCall" and z["name"] in ("rdistance", "distance", "rdist_to_dist", "dist_to_rdist")]
+            if not calls:
+                continue
+            res.instance("%s : shift and tolerance in the same space" % key)
+            reduced = "rdistance" in calls and "rdist_to_dist" not in calls
+            tol_calls = [z["name"] for z in walk(tol[0]) if z.get("k") == "MethodCall" and z["name"] in ("dist_to_rdist", "rdist_to_dist")]
+            tol_arith = [z for z in walk(tol[0]) if z.get("k") == "Binary" or (z.get("k") == "MethodCall" and z["name"] in ("powi", "powf", "sqrt", "mul", "pow"))]
+            if reduced and "dist_to_rdist" not in tol_calls:
+                res.violate("%s : reduced-shift-against-unreduced-tolerance" % key, "`%s`: the shift is a *reduced* distance (squared for L2 only, the distance itself for L1 / L-inf), the other side is not `dist_to_rdist(tolerance)`: for every metric but L2 the documented tolerance is not the one applied" % r.e(y)[:70], fn_loc(fn, y["ln"]))
+            elif not reduced and (tol_arith or tol_calls):
+                res.violate("%s : tolerance-rescaled" % key, "`%s`: the shift is a distance, the tolerance side is rescaled" % r.e(y)[:70], fn_loc(fn, y["ln"]))
+            else:
+                res.ok()
+    return res.finish(4)
+
+
+def rule_classes(ctx):
+    """fit_with visits the classes of the batch and, for each, adds *all* rows of that class to its statistics.  A class met
+    twice in that walk is counted twice: the collection walked must hold every class once."""
+    res = RuleResult("R-C15-classes", "the per-class update of naive Bayes `fit_with` walks a duplicate-free collection of the batch's classes")
+    F = ctx.facts()
+    from .c17 import for_loops
+    fws = [f for f in fns_of(F, "linfa_bayes", "fit_with", trait="FitWith")]
+    if len(fws) < 2:
+        res.missing_anchor("FitWith impls of linfa-bayes (found %d)" % len(fws))
+    for fn in fws:
+        c = fn["crate"]
+        r = Render(c)
+        key = fn_key(fn)
+        inits = lets(fn)
+        loops = []
+        for it, pat, body, node in for_loops(fn["body"]):
+            ids = {b["local"] for b in pat_bindings(pat)}
+            keyed = any(z.get("k") == "MethodCall" and z["name"] == "entry" and any(w.get("k") == "Path" and w.get("local") in ids for a in z["args"] for w in walk(a)) for z in walk(body))
+            if keyed:
+                loops.append((it, node))
+        if not loops:
+            res.instance("%s : class walk" % key)
+            res.undecided("%s : class-walk" % key, "no loop that reaches the class statistics through entry(class) (fail closed)", fn_loc(fn))
+            continue
+        for it, node in loops:
+            res.instance("%s : class walk" % key)
+            src = peel_refs(it)
+            while src.get("k") == "MethodCall" and src["name"] in ("into_iter", "iter", "cloned", "copied"):
+                src = peel_refs(src["recv"])
+            if src.get("k") == "Call" and src["args"] and (c.dfn(strip(src["f"]).get("def")) or {}).get("name") == "into_iter":
+                src = peel_refs(src["args"][0])
+                while src.get("k") == "MethodCall" and src["name"] in ("into_iter", "iter", "cloned", "copied"):
+                    src = peel_refs(src["recv"])
+            loc = None
+            if src.get("k") == "Path" and src.get("local") in inits:
+                loc = src["local"]
+                src = peel_refs(inits[loc]["init"])
+            ty = c.ty(src.get("t")) or ""
+            if src.get("k") == "MethodCall" and src["name"] == "labels":
+                res.ok()
+                continue
+            if "HashSet<" in ty or "BTreeSet<" in ty or "BTreeMap<" in ty or "HashMap<" in ty:
+                res.ok()
+                continue
+            uses = [z["name"] for z in walk(fn["body"]) if loc is not None and z.get("k") == "MethodCall" and peel_refs(z["recv"]).get("local") == loc and (z.get("ln") or 0) <= (node.get("ln") or 10 ** 9)]
+            sorted_ = any(u.startswith("sort") for u in uses)
+            dedup = any(u.startswith("dedup") for u in uses)
+            if sorted_ and dedup:
+                res.ok()
+            elif any(z.get("k") == "MethodCall" and z["name"] in ("to_vec", "to_owned", "collect", "clone", "iter", "into_raw_vec") for z in [src] + list(walk(src))) and "Vec<" in ty or "ArrayBase<" in ty:
+                res.violate("%s : classes-visited-may-repeat" % key, "the classes are walked from `%s`%s: a class that occurs more than once there has all its rows added to its statistics once per occurrence" % (r.e(src)[:50], " (dedup without a sort removes neighbouring repeats only)" if dedup else ""), fn_loc(fn, node.get("ln")))
+            else:
+                res.undecided("%s : class-source" % key, "`%s` : %s (fail closed)" % (r.e(src)[:50], ty[:40]), fn_loc(fn, node.get("ln")))
+    return res.finish(2)
 
 
 def rule_ftrl(ctx):
@@ -718,7 +807,7 @@ def rule_fitcounts(ctx):
 
 def rules(tier):
     from . import carry, precision, layout
-    return [rule_sigma0, layout.make_rule("R-C15-memorder", "raw memory-order buffers are used by position only behind a standard-layout test", lambda f: f["d"]["krate"] in ("linfa_bayes", "linfa_ftrl"), "linfa-bayes and linfa-ftrl"),
+    return [rule_classes, rule_sigma0, layout.make_rule("R-C15-memorder", "raw memory-order buffers are used by position only behind a standard-layout test", lambda f: f["d"]["krate"] in ("linfa_bayes", "linfa_ftrl"), "linfa-bayes and linfa-ftrl"),
             rule_fitcounts, carry.make_fieldcopy_rule("R-C15-fieldcopy", {"linfa_bayes", "linfa_ftrl", "linfa_clustering"}, 0),
             rule_batch, rule_carry_state, rule_epsilon, rule_counts, rule_kmeans, rule_ftrl,
             carry.make_clone_rule("R-C15-clone", {"linfa_bayes", "linfa_ftrl"}, 6), carry.make_setter_rule("R-C15-override", {"linfa_bayes", "linfa_ftrl"}, 4),
